@@ -203,6 +203,7 @@ class C03(Check):
         yield from families.seats_ties(3, spaces.W(3, 3, 3, (2, 3, 5)), seats=(1, 2), ties='id', cfgs=S)
         yield from families.seats_ties(3, spaces.U(3, 5, 5), ties='id', cfgs=S)
         yield from families.repo_files(S, max_bytes=4000 if q else 10 ** 7)
+        yield from families.corner_corpus(S)
         if not q:
             yield from families.seats_ties(3, spaces.U(3, 0, 4), ties='all', cfgs=S)
             yield from families.seats_ties(3, spaces.W(3, 3, 3, (1, 2, 3, 5, 8)), seats=(1, 2), cfgs=S)
